@@ -15,7 +15,8 @@ from . import c01
 
 PID = "C02"
 
-BASE_CFG = {"engines": ("pandas", "pg"), "max_nodes": 7, "n_tables": (1, 2), "final_order": 0.3}
+BASE_CFG = {"engines": ("pandas", "pg"), "max_nodes": 7, "n_tables": (1, 2), "final_order": 0.3,
+            "shape": "diamond", "shape_prob": 0.4, "reuse_bias": True}
 
 
 def fmt_options(cte: bool):
